@@ -582,7 +582,7 @@ Section Containers.
   Lemma load_saved s s' : Inv s -> load (dl <$> layers s) = Some s' -> layers s' = layers s /\ Inv s'.
   Proof.
     intros HI. pose proof HI as (N1 & (d & rest & E & Hd & F1 & F2 & F3 & N2) & V & HL).
-    unfold Layer.load. destruct (negb (forallb _ _)); [discriminate|]. destruct (negb (disk_checked _)); [discriminate|].
+    unfold Layer.load. destruct (negb (forallb _ _)); [discriminate|]. destruct (negb (disk_checked _ _)); [discriminate|].
     rewrite (load_layers_dl _ HL), E. cbn [split_default]. rewrite (is_default_true d Hd).
     intros [= <-]. cbn [layers lpset]. split; [reflexivity|].
     split; [|split; [|split]]; cbn [layers lpset].
@@ -957,21 +957,37 @@ Section Containers.
     - intros k [q Hq]. eapply Hv. exact Hq.
   Qed.
 
-  Theorem inv_loaded d s : wf_disk lower d -> load d = Some s -> Inv s.
+  Lemma nodup_fmap_inj_elem {A B} (f : A -> B) (l : list A) x y :
+    NoDup (f <$> l) -> x ∈ l -> y ∈ l -> f x = f y -> x = y.
   Proof.
-    intros (W2 & W4). unfold Layer.load.
+    induction l as [|a t IH]; cbn; [intros _ H; apply elem_of_nil in H; contradiction|].
+    rewrite NoDup_cons, !elem_of_cons. intros [Hn Ht] [->|Hx] [->|Hy] Hf; auto.
+    - exfalso. apply Hn. rewrite Hf. apply elem_of_list_fmap. eauto.
+    - exfalso. apply Hn. rewrite <- Hf. apply elem_of_list_fmap. eauto.
+  Qed.
+
+  Theorem inv_loaded d s : load d = Some s -> Inv s.
+  Proof.
+    unfold Layer.load.
     destruct (forallb dlayer_names_valid d) eqn:Ev; [|discriminate]. cbn [negb].
-    destruct (disk_checked d) eqn:Ec; [|discriminate]. cbn [negb].
-    unfold disk_checked in Ec. rewrite !andb_true_iff in Ec. destruct Ec as ((((_ & C2) & _) & C4) & _).
-    apply bool_decide_eq_true in C2. rename C2 into W1.
+    destruct (disk_checked lower d) eqn:Ec; [|discriminate]. cbn [negb].
+    unfold disk_checked in Ec. rewrite !andb_true_iff in Ec. destruct Ec as ((((_ & C2) & C3) & C4) & C5).
+    apply bool_decide_eq_true in C2. rename C2 into W1. apply bool_decide_eq_true in C3. rename C3 into W2.
     assert (W3 : forall x, x ∈ d -> x.1.2 <> DEFAULT_GLYPHS_DIRNAME -> x.1.1 <> DEFAULT_LAYER_NAME).
     { intros x Hx Hne Heq. rewrite forallb_forall in C4. apply elem_of_list_In in Hx. specialize (C4 x Hx).
       rewrite (bool_decide_eq_true_2 _ Heq), (bool_decide_eq_false_2 _ Hne) in C4. discriminate. }
+    assert (W4 : forall x g1 g2 q1 q2, x ∈ d -> x.2 !! g1 = Some q1 -> x.2 !! g2 = Some q2 -> lower q1 = lower q2 -> g1 = g2).
+    { intros x g1 g2 q1 q2 Hx H1 H2 Hq. rewrite forallb_forall in C5. apply elem_of_list_In in Hx. specialize (C5 x Hx).
+      unfold dlayer_files_ok in C5. apply andb_true_iff in C5. destruct C5 as [_ C5]. apply bool_decide_eq_true in C5.
+      assert (E : (g1, q1) = (g2, q2)).
+      { eapply (nodup_fmap_inj_elem (fun kv : str * str => lower kv.2)); [exact C5| | |exact Hq];
+          apply elem_of_map_to_list; assumption. }
+      congruence. }
     destruct (split_default (load_layer lower <$> d)) as [[x rest]|] eqn:Es; [|discriminate]. intros [= <-].
     destruct (split_default_spec _ _ _ Es) as (pre & post & Els & -> & Hx).
     assert (Hname : l_name <$> (load_layer lower <$> d) = (fun y : dlayer => y.1.1) <$> d).
     { rewrite <- list_fmap_compose. apply list_fmap_ext. intros i [[? ?] ?] _; reflexivity. }
-    assert (Hpath : (fun l => lower (l_path l)) <$> (load_layer lower <$> d) = (fun y => lower y.1.2) <$> d).
+    assert (Hpath : (fun l => lower (l_path l)) <$> (load_layer lower <$> d) = (fun y : dlayer => lower y.1.2) <$> d).
     { rewrite <- list_fmap_compose. apply list_fmap_ext. intros i [[? ?] ?] _; reflexivity. }
     rewrite Els in Hname, Hpath. rewrite <- Hname in W1. rewrite <- Hpath in W2.
     rewrite fmap_app, fmap_cons in W1, W2.
@@ -1250,7 +1266,7 @@ Section Containers.
   Lemma plain_loaded d s : load d = Some s -> Plain s.
   Proof.
     unfold Layer.load. destruct (negb (forallb _ _)); [discriminate|].
-    destruct (disk_checked d) eqn:Ec; [|discriminate]. cbn [negb].
+    destruct (disk_checked lower d) eqn:Ec; [|discriminate]. cbn [negb].
     destruct (split_default (load_layer lower <$> d)) as [[x rest]|] eqn:Es; [|discriminate]. intros [= <-].
     destruct (split_default_spec _ _ _ Es) as (pre & post & Els & -> & Hx).
     unfold disk_checked in Ec. rewrite !andb_true_iff in Ec. destruct Ec as ((((C1 & _) & _) & _) & C5).
@@ -1264,23 +1280,69 @@ Section Containers.
   Qed.
 
   (** saving and loading a consistent, plain font succeeds and reproduces its layers *)
-  Lemma nodup_values (c : gmap str str) :
-    (forall g1 g2 q, c !! g1 = Some q -> c !! g2 = Some q -> g1 = g2) -> NoDup (map_to_list c).*2.
+  Lemma nodup_lower_values (c : gmap str str) :
+    (forall g1 g2 q1 q2, c !! g1 = Some q1 -> c !! g2 = Some q2 -> lower q1 = lower q2 -> g1 = g2) ->
+    NoDup ((fun kv : str * str => lower kv.2) <$> map_to_list c).
   Proof.
     intros Hinj. apply NoDup_fmap_2_strong; [|apply NoDup_map_to_list].
-    intros [g1 q1] [g2 q2] H1 H2 Heq. cbn in Heq. subst q2.
-    apply elem_of_map_to_list in H1, H2. f_equal. eapply Hinj; eauto.
+    intros [g1 q1] [g2 q2] H1 H2 Heq. cbn in Heq.
+    apply elem_of_map_to_list in H1, H2. assert (g1 = g2) by (eapply Hinj; eauto). subst g2. congruence.
   Qed.
-  Lemma saved_disk_checked s : Inv s -> Plain s -> disk_checked (dl <$> layers s) = true.
+
+  (** *** instance 3: no directory equals "glyphs" ignoring case — needs that [lower] tells
+      "glyphs" from "glyphs." ++ anything (true of [str::to_lowercase]; validated by the run) *)
+  Definition lower_separates : Prop :=
+    forall m, lower (LAYER_PREFIX ++ m) <> lower DEFAULT_GLYPHS_DIRNAME.
+  Lemma dir_name_sep n taken p :
+    lower_separates -> name_validb n = true -> dir_name n taken = Some p -> lower p <> lower DEFAULT_GLYPHS_DIRNAME.
   Proof.
-    intros HI HP. pose proof (paths_nodup s HI) as HN.
+    intros Hs Hv H. apply name_validb_spec in Hv.
+    destruct (layer_dir_name_spec _ _ _ _ _ Hv H) as (_ & (m & -> & _) & _). apply Hs.
+  Qed.
+  Theorem sep_step s o : lower_separates -> Inv s -> Sep lower s -> Sep lower (step s o).1.
+  Proof.
+    intros Hs. apply (ginv_step (fun _ _ => True) (fun _ p => lower p <> lower DEFAULT_GLYPHS_DIRNAME)); [auto|].
+    intros n taken p. apply dir_name_sep. exact Hs.
+  Qed.
+  Lemma sep_init : Sep lower init.
+  Proof. apply (ginv_init (fun _ _ => True) (fun _ p => lower p <> lower DEFAULT_GLYPHS_DIRNAME)). Qed.
+  Theorem reachable_sep ops s s' : lower_separates ->
+    Inv s -> Sep lower s -> clean s ops -> run s ops = Some s' -> Inv s' /\ Sep lower s'.
+  Proof.
+    intros Hs. apply (reachable_g (fun _ _ => True) (fun _ p => lower p <> lower DEFAULT_GLYPHS_DIRNAME)); [auto|].
+    intros n taken p. apply dir_name_sep. exact Hs.
+  Qed.
+  Lemma sep_loaded d s : load d = Some s -> Sep lower s.
+  Proof.
+    unfold Layer.load. destruct (negb (forallb _ _)); [discriminate|].
+    destruct (disk_checked lower d) eqn:Ec; [|discriminate]. cbn [negb].
+    destruct (split_default (load_layer lower <$> d)) as [[x rest]|] eqn:Es; [|discriminate]. intros [= <-].
+    destruct (split_default_spec _ _ _ Es) as (pre & post & Els & -> & Hx).
+    unfold disk_checked in Ec. rewrite !andb_true_iff in Ec. destruct Ec as ((((_ & _) & C3) & _) & _).
+    apply bool_decide_eq_true in C3.
+    assert (Hpath : (fun l => lower (l_path l)) <$> (load_layer lower <$> d) = (fun y : dlayer => lower y.1.2) <$> d).
+    { rewrite <- list_fmap_compose. apply list_fmap_ext. intros i [[? ?] ?] _; reflexivity. }
+    rewrite <- Hpath, Els, fmap_app, fmap_cons in C3. destruct (nodup_remove_mid _ _ _ C3) as [_ Hn].
+    unfold Layer.Sep. cbn [layers]. apply Forall_cons. split; [split; [auto|left; exact Hx]|].
+    apply Forall_forall. intros y Hy. split; [auto|]. right. intros Heq. apply Hn. rewrite <- fmap_app.
+    apply elem_of_list_fmap. exists y. split; [congruence|exact Hy].
+  Qed.
+
+  Lemma saved_disk_checked s : Inv s -> Plain s -> Sep lower s -> disk_checked lower (dl <$> layers s) = true.
+  Proof.
+    intros HI HP HS.
     destruct HI as (N1 & (d & rest & E & Hd & F1 & F2 & F3 & N2) & V & HL).
-    unfold Layer.Plain in HP. rewrite Forall_forall in HP, HL.
+    unfold Layer.Plain in HP. unfold Layer.Sep in HS. rewrite Forall_forall in HP, HL, HS.
     unfold disk_checked. rewrite !andb_true_iff. repeat split.
     - apply forallb_forall. intros x Hx. apply elem_of_list_In in Hx. apply elem_of_list_fmap in Hx.
       destruct Hx as (l & -> & Hl). cbn. destruct (HP l Hl) as [_ [->|H]]; [reflexivity|exact H].
     - apply bool_decide_eq_true. rewrite <- list_fmap_compose. exact N1.
-    - apply bool_decide_eq_true. rewrite <- list_fmap_compose. exact HN.
+    - apply bool_decide_eq_true. rewrite <- list_fmap_compose. rewrite E, fmap_cons. apply NoDup_cons. split; [|exact N2].
+      cbn. intros Hin. apply elem_of_list_fmap in Hin. destruct Hin as (y & Hy & Hin). cbn in Hy.
+      assert (Hyl : y ∈ layers s) by (rewrite E; right; exact Hin).
+      destruct (HS y Hyl) as [_ [Hp|Hp]].
+      + rewrite Forall_forall in F1. apply (F1 y Hin). exact Hp.
+      + apply Hp. rewrite <- Hy, Hd. reflexivity.
     - apply forallb_forall. intros x Hx. apply elem_of_list_In in Hx. apply elem_of_list_fmap in Hx.
       destruct Hx as (l & -> & Hl). cbn. rewrite E in Hl. apply elem_of_cons in Hl. destruct Hl as [->|Hl].
       + rewrite (bool_decide_eq_true_2 _ Hd). apply orb_true_r.
@@ -1288,13 +1350,13 @@ Section Containers.
     - apply forallb_forall. intros x Hx. apply elem_of_list_In in Hx. apply elem_of_list_fmap in Hx.
       destruct Hx as (l & -> & Hl). unfold dlayer_files_ok, dl. cbn. apply andb_true_iff. split.
       + apply bool_decide_eq_true. intros g q Hq. destruct (HP l Hl) as [H _]. eapply H. exact Hq.
-      + apply bool_decide_eq_true. apply nodup_values. intros g1 g2 q H1 H2.
-        destruct (HL l Hl) as (_ & _ & _ & H4 & _). eapply H4; eauto.
+      + apply bool_decide_eq_true. apply nodup_lower_values.
+        destruct (HL l Hl) as (_ & _ & _ & H4 & _). exact H4.
   Qed.
-  Theorem save_load_exact s : Inv s -> Plain s ->
-    exists d, save s = SOk d /\ exists s', load d = Some s' /\ layers s' = layers s /\ Inv s' /\ Plain s'.
+  Theorem save_load_exact s : Inv s -> Plain s -> Sep lower s ->
+    exists d, save s = SOk d /\ exists s', load d = Some s' /\ layers s' = layers s /\ Inv s' /\ Plain s' /\ Sep lower s'.
   Proof.
-    intros HI HP. exists (dl <$> layers s). split; [apply save_ok; exact HI|].
+    intros HI HP HS. exists (dl <$> layers s). split; [apply save_ok; exact HI|].
     assert (Hsome : exists s', load (dl <$> layers s) = Some s').
     { pose proof HI as (N1 & (d & rest & E & Hd & _) & V & HL). unfold Layer.load.
       assert (Hv : forallb dlayer_names_valid (dl <$> layers s) = true).
@@ -1302,11 +1364,11 @@ Section Containers.
         destruct Hx as (l & -> & Hl). unfold dl, dlayer_names_valid. rewrite Forall_forall in V, HL.
         rewrite (V l Hl). cbn. apply bool_decide_eq_true. intros k q Hk.
         destruct (HL l Hl) as (_ & _ & _ & _ & H5). apply H5. eauto. }
-      rewrite Hv, (saved_disk_checked s HI HP). cbn [negb].
+      rewrite Hv, (saved_disk_checked s HI HP HS). cbn [negb].
       rewrite (load_layers_dl _ HL), E. cbn [split_default]. rewrite (is_default_true d Hd). eauto. }
     destruct Hsome as [s' Hs']. exists s'. split; [exact Hs'|].
     destruct (load_saved s s' HI Hs') as [E HI']. split; [exact E|]. split; [exact HI'|].
-    unfold Layer.Plain. rewrite E. exact HP.
+    split; [unfold Layer.Plain; rewrite E; exact HP|unfold Layer.Sep; rewrite E; exact HS].
   Qed.
 
   (** every name in a font built through the API satisfies the clauses of C07 *)
@@ -1365,27 +1427,25 @@ Proof.
   - vm_compute. reflexivity.
 Qed.
 
-(** loading compares directories exactly: two directories that differ only by case load, the
-    loaded font violates the invariant, and removing one layer frees the other's directory in
-    the taken-set, so that a new layer is given a directory that is already in use and saving
-    fails (known finding load-case-clash).  Duplicate names / directories are refused. *)
+(** loading refuses duplicate layer names and directories that are equal ignoring case (fixes
+    83f6c18, f6784f0); the former witness of the finding load-case-clash is refused *)
 Definition nb : str := [98%N].
 Definition nB : str := [66%N].
 Definition clash_disk : disk :=
   [(DEFAULT_LAYER_NAME, DEFAULT_GLYPHS_DIRNAME, ∅); (nb, s2l "glyphs.A_"%string, ∅); (nB, s2l "glyphs.a_"%string, ∅)].
 Definition dup_disk : disk :=
   [(DEFAULT_LAYER_NAME, DEFAULT_GLYPHS_DIRNAME, ∅); (nA, s2l "glyphs.a"%string, ∅); (nA, s2l "glyphs.b"%string, ∅)].
-Lemma load_case_clash_refuted :
-  load ascii_lower dup_disk = None /\
-  exists s, load ascii_lower clash_disk = Some s /\ ~ Inv ascii_lower s /\
-    exists s2, run ascii_is_upper ascii_lower s [RemoveLayer nB; NewLayer nA] = Some s2 /\
-               (step ascii_is_upper ascii_lower s2 SaveLoad).2 = OErr SaveErr.
+Definition mid_disk : disk :=
+  [(nb, s2l "glyphs.a"%string, ∅); (DEFAULT_LAYER_NAME, DEFAULT_GLYPHS_DIRNAME, ∅); (nB, s2l "glyphs.A_"%string, ∅)].
+Lemma load_examples :
+  load ascii_lower dup_disk = None /\ load ascii_lower clash_disk = None /\
+  exists s, load ascii_lower mid_disk = Some s /\ (l_name <$> layers s) = [DEFAULT_LAYER_NAME; nb; nB] /\
+    exists s2, run ascii_is_upper ascii_lower s [NewLayer [97%N]; NewLayer nA] = Some s2 /\
+      layer_dir s2 [97%N] = Some (s2l "glyphs.a01"%string) /\ layer_dir s2 nA = Some (s2l "glyphs.A_01"%string).
 Proof.
-  split; [vm_compute; reflexivity|].
-  eexists. split; [vm_compute; reflexivity|]. split.
-  - intros (_ & (d & rest & E & _ & _ & _ & _ & N) & _). injection E as <- <-. vm_compute in N.
-    apply NoDup_cons in N. destruct N as [N _]. apply N. left.
-  - eexists. split; vm_compute; reflexivity.
+  split; [vm_compute; reflexivity|]. split; [vm_compute; reflexivity|].
+  eexists. split; [vm_compute; reflexivity|]. split; [vm_compute; reflexivity|].
+  eexists. split; [vm_compute; reflexivity|]. split; vm_compute; reflexivity.
 Qed.
 
 Lemma full_refuted :
